@@ -285,7 +285,7 @@ fn c13_latch_trace_release_reachable() {
 /// Delivery proof is stamped only by an earned SRTLA ACK (core side; the keepalive echo site is
 /// in the shell harness).  Every other accounting event leaves the stamp alone.
 #[kani::proof]
-#[kani::unwind(4)]
+#[kani::unwind(6)]
 #[kani::stub(alloc::fmt::format, no_format)]
 #[kani::stub(srtla_core::connection::RttTracker::update_estimate, no_rtt_update)]
 fn c13_proof_stamp_sites() {
